@@ -98,8 +98,28 @@ def tv(t):
     return view.tree_view(t, flags=FLAGS, md=True)
 
 
+def mutate_metadata(tree, r):
+    """edit nested mutable values of user metadata in place (lists / dicts inside node.ayns.metadata), on every kind of node incl. key nodes"""
+    from awesomeyaml.nodes.node import ConfigNode
+    nodes = [tree] + list(tree.ayns.nodes(include_self=False, allow_duplicates=True))
+    for n in list(nodes):
+        if isinstance(n, dict):
+            nodes.extend(k for k in dict.keys(n) if isinstance(k, ConfigNode))
+    hit = 0
+    for n in nodes:
+        for k, v in list(n.ayns.metadata.items()):
+            if isinstance(v, list):
+                v.append('EDITED')
+                hit += 1
+            elif isinstance(v, dict):
+                v['EDITED'] = r
+                hit += 1
+    return hit
+
+
 def mutate(tree, muts):
     from awesomeyaml.nodes.composed import ComposedNode
+    mutate_metadata(tree, muts[0]['r'])
     for m in muts:
         conts = [n for n in tree.ayns.nodes(include_self=True) if isinstance(n, ComposedNode) and not isinstance(n, tuple)]
         n = conts[int(m['sel'] * len(conts))]
